@@ -31,7 +31,8 @@ Growth(r) == (r.exit = 0 /\ r.holesDetectable /\ r.growBase >= 0) =>
                 r.dblocks <= r.growBase + r.slackBlocks /\ r.growBase <= r.dblocks + r.slackBlocks
 
 Clauses(r) == (IF Growth(r) THEN {} ELSE {"GROWTH"}) \cup (IF Exact(r) THEN {} ELSE {"EXACT"}) \cup (IF Sparse(r) THEN {} ELSE {"SPARSE"})
-SetToSeq(S) == CHOOSE f \in [1..Cardinality(S) -> S] : \A i, j \in 1..Cardinality(S) : i # j => f[i] # f[j]
+RECURSIVE SetToSeq(_)
+SetToSeq(S) == IF S = {} THEN <<>> ELSE LET x == CHOOSE x \in S : TRUE IN <<x>> \o SetToSeq(S \ {x})
 
 VARIABLE l
 Init == l = 1
